@@ -750,6 +750,29 @@ func classify(c *Case) (bool, []string) {
 	if ob.closeErr != "" {
 		add("close-error")
 	}
+	if len(ob.names) > 0 && ob.names[0] == "DCTDecode" {
+		if sof, _ := jpegSegments(c.Body); sof >= 0 && sof+10 <= len(c.Body) {
+			nf := int(c.Body[sof+9])
+			if nf == 3 && sof+19 <= len(c.Body) {
+				y, cb, cr := c.Body[sof+11], c.Body[sof+14], c.Body[sof+17]
+				if cb != cr {
+					add("jpeg-chroma-unequal")
+					if cr>>4 > cb>>4 || cr&15 > cb&15 {
+						add("jpeg-cr-denser-than-cb")
+					}
+				}
+				if cb>>4 > y>>4 || cb&15 > y&15 {
+					add("jpeg-chroma-denser-than-luma")
+				}
+			}
+			if nf != 1 && nf != 3 && nf != 4 {
+				add("jpeg-odd-component-count")
+			}
+			if p := c.Body[sof+4]; p != 8 {
+				add("jpeg-precision!=8")
+			}
+		}
+	}
 	if c.ExpectOut > 0 && ob.eof && ob.out == int64(c.ExpectOut) {
 		add("lzw-full-ok")
 	}
